@@ -32,6 +32,9 @@ import Bmc.Proofs.GenDec.SessionSelector
 import Bmc.Proofs.GenDec.Message
 import Bmc.Proofs.GenDec.GetDCMICapabilitiesInfoEnhancedSystemPowerStatisticsAttrsRsp
 import Bmc.Proofs.GenDec.GetDCMISensorInfoRsp
+import Bmc.Proofs.GenDec.FullSensorRecord
+import Bmc.Proofs.GenDec.V2Session
+import Bmc.Proofs.GenDec.AES128CBC
 #print axioms Bmc.Proofs.C05.deviceID_total
 #print axioms Bmc.Proofs.C05.deviceID_safe
 #print axioms Bmc.Proofs.C05.chassis_total
@@ -123,3 +126,6 @@ import Bmc.Proofs.GenDec.GetDCMISensorInfoRsp
 #print axioms Bmc.Proofs.GenDec.Message_gen_eq
 #print axioms Bmc.Proofs.GenDec.GetDCMICapabilitiesInfoEnhancedSystemPowerStatisticsAttrsRsp_gen_eq
 #print axioms Bmc.Proofs.GenDec.GetDCMISensorInfoRsp_gen_eq
+#print axioms Bmc.Proofs.GenDec.FullSensorRecord_gen_eq
+#print axioms Bmc.Proofs.GenDec.V2Session_gen_eq
+#print axioms Bmc.Proofs.GenDec.AES128CBC_gen_eq
